@@ -5,3 +5,10 @@ import P2P.Props.C03
 #print axioms P2P.Props.C03.water_clean
 #print axioms P2P.Props.C03.cleanup_spec
 #print axioms P2P.Props.C03.written_or_reported
+#print axioms P2P.Props.C03.repair_complete
+#print axioms P2P.Props.C03.repair_reports
+#print axioms P2P.Props.C03.repair_keeps_known
+#print axioms P2P.Props.C03.repair_nodup
+#print axioms P2P.Props.C03.hydrogens_complete
+#print axioms P2P.Props.C03.hydrogens_only_adds
+#print axioms P2P.Props.C03.hydrogens_nodup
